@@ -351,6 +351,30 @@ func c11Case(r *core.Run, idx int, rng *rand.Rand) {
 				viol(c2, "issuer_of_sso_error", fmt.Sprintf("Issuer %q, entityID %q", c2.D.Msg.Issuer, mv.EntityID))
 			}
 		}
+		// ... also while the key storage is failing: what the document advertised a moment ago is still refused
+		if advTrue {
+			for _, kind := range []string{sim.FaultError, sim.FaultNilRecord, sim.FaultTimeout} {
+				kind := kind
+				e.W.Plan = func(_, o string, _ int) string {
+					if o == "GetResponseSigningKey" || o == "GetMetadataSigningKey" {
+						return kind
+					}
+					return ""
+				}
+				a3 := validAuthn(rng, spd)
+				a3.Destination = ssoLoc
+				u3 := ssoSend{Path: eps["sso"].route("SSO"), Binding: []string{"redirect", "post"}[rng.Intn(2)], XML: a3.XML(rng), Host: reqHost}
+				u3.hdr = hdr
+				c3, _ := u3.do(e)
+				e.W.Plan = nil
+				if c3.Panic != "" {
+					viol(c3, "panic", c3.Panic)
+				} else if c3.Accepted() {
+					viol(c3, "want_signed_advertised_but_unsigned_accepted", fmt.Sprintf("metadata advertises WantAuthnRequestsSigned=%q but an unsigned request was accepted while the key storage was failing (%s)", mv.WantSigned, kind))
+				}
+				r.Count("want_signed_probes_during_key_fault", 1)
+			}
+		}
 		// an SSO error reply carries the entity ID as Issuer
 		bad := ssoSend{Path: eps["sso"].route("SSO"), Binding: "redirect", XML: "<broken", Host: reqHost}
 		bad.hdr = hdr
